@@ -22,7 +22,7 @@ func init() { Register(c15{}) }
 func (c15) ID() string    { return "C15" }
 func (c15) Level() string { return "fault_enumeration" }
 func (c15) Rule() string {
-	return "for each value (every zoo shape at small sizes) a fault-free run counts the Write calls W of the encode call; then EVERY k in 1..W x fault kinds {error once, error from k on, short count + io.ErrShortWrite, short count + nil error} is injected at the k-th Write through Encoder.WriteTo, Encoder.WriteObject (1st, 2nd and 3rd value of a stream), Serializer.WriteTo and Serializer.Write. Oracle: whenever the fault fired the call must return a non-nil error; when a call returns nil the bytes that reached the writer must equal the fault-free rendering. Non-trivial = W >= 2; distinct by (value hash, entry point, k, fault kind)."
+	return "for each value (every zoo shape at small sizes) a fault-free run counts the Write calls W of the encode call; then EVERY k in 1..W x fault kinds {error once, error from k on, short count + io.ErrShortWrite, short count + nil error, error together with a FULL count once / from k on} is injected at the k-th Write through Encoder.WriteTo, Encoder.WriteObject (1st, 2nd and 3rd value of a stream), Serializer.WriteTo and Serializer.Write. Oracle: whenever the fault fired the call must return a non-nil error; when a call returns nil the bytes that reached the writer must equal the fault-free rendering. Non-trivial = W >= 2; distinct by (value hash, entry point, k, fault kind)."
 }
 func (c15) Exhaustive(tier string) (bool, string) {
 	return true, "every write index k of every generated value (per value, per entry point, per fault kind)"
@@ -88,7 +88,7 @@ func (c15) Run(c Case, env *Env) Result {
 	cfg := zooCfg(env, "C15")
 	cfg.MaxLen, cfg.StrMax, cfg.MaxDepth, cfg.Lens = 4, 12, 3, nil
 	lo, hi := subRange(c)
-	kinds := []mon.FaultKind{mon.FaultOnce, mon.FaultFrom, mon.FaultShortErr, mon.FaultShortNil}
+	kinds := []mon.FaultKind{mon.FaultOnce, mon.FaultFrom, mon.FaultShortErr, mon.FaultShortNil, mon.FaultFullErrOnce, mon.FaultFullErrFrom}
 	for j := lo; j < hi; j++ {
 		if c.Kind != "big" && typeAvoided(env, "C15", e) && !env.Replay {
 			res.Skipped++
